@@ -1,22 +1,810 @@
 package main
 
-// GoLite → Lean translator; functions are added in golite_funcs.go.
-func genGoLite() {
-	l := newLean("GoLite")
-	l.pf("namespace GV.Gen.GoLite\n")
-	for _, f := range goLiteFuncs {
-		translateFunc(l, f)
-	}
-	l.pf("end GV.Gen.GoLite\n")
-}
+// GoLite → Lean translator.
+//
+// A deliberately tiny subset of Go: functions over integer and boolean
+// values with locals, assignments, if/else, early returns, condition-only
+// `for` loops (translated to a fuel-indexed recursive definition) and a few
+// math/bits intrinsics. Everything is emitted over Lean `Int` with explicit
+// wrap-around at the Go type's width, so the generated definition computes
+// exactly what the Go function computes (including overflow behaviour).
+// Anything outside the subset is a hard error: the translator never guesses.
+//
+// Result values of type `error` become a Bool "is an error".
+
+import (
+	"fmt"
+	"go/ast"
+	"go/constant"
+	"go/token"
+	"sort"
+	"strings"
+)
 
 type goLiteFunc struct {
 	pkg, recv, name string
 	leanName        string
+	fuel            string            // Lean expression used as fuel for loops
+	fields          map[string]string // receiver field -> Go type (for methods)
 }
 
 var goLiteFuncs = []goLiteFunc{}
 
-func translateFunc(l *leanFile, f goLiteFunc) {
-	fatal("GoLite translator not yet implemented for %s", f.name)
+func registerGoLite(f goLiteFunc) { goLiteFuncs = append(goLiteFuncs, f) }
+
+const goLitePrelude = `
+set_option linter.unusedVariables false
+/-- wrap to an unsigned w-bit value -/
+def wrapU (w : Nat) (x : Int) : Int := x % (2 ^ w)
+/-- wrap to a signed w-bit value (two's complement) -/
+def wrapS (w : Nat) (x : Int) : Int := (x + 2 ^ (w - 1)) % (2 ^ w) - 2 ^ (w - 1)
+`
+
+func genGoLite() {
+	l := newLean("GoLite")
+	l.pf("namespace GV.Gen.GoLite\n")
+	l.pf("%s\n", goLitePrelude)
+	for _, f := range goLiteFuncs {
+		t := &glTrans{f: f, p: loadPkg(f.pkg)}
+		t.translate(l)
+	}
+	l.pf("end GV.Gen.GoLite\n")
+}
+
+type glType struct {
+	kind  string // "u", "s", "bool", "err"
+	width int
+}
+
+func (t glType) lean() string {
+	if t.kind == "bool" || t.kind == "err" {
+		return "Bool"
+	}
+	return "Int"
+}
+
+func parseGoType(name string) (glType, bool) {
+	switch name {
+	case "uint64":
+		return glType{"u", 64}, true
+	case "uint":
+		return glType{"u", 64}, true
+	case "uint32":
+		return glType{"u", 32}, true
+	case "uint16":
+		return glType{"u", 16}, true
+	case "uint8", "byte":
+		return glType{"u", 8}, true
+	case "int64", "int":
+		return glType{"s", 64}, true
+	case "int32":
+		return glType{"s", 32}, true
+	case "int16":
+		return glType{"s", 16}, true
+	case "int8":
+		return glType{"s", 8}, true
+	case "bool":
+		return glType{"bool", 0}, true
+	case "error":
+		return glType{"err", 0}, true
+	}
+	return glType{}, false
+}
+
+type glTrans struct {
+	f       goLiteFunc
+	p       *pkgInfo
+	fd      *ast.FuncDecl
+	results []glType
+	vars    map[string]glType // in-scope variables
+	order   []string          // declaration order of in-scope variables
+	aux     []string          // auxiliary loop definitions
+	nloop   int
+	recv    string
+	cenv    *constEnv
+}
+
+func (t *glTrans) fail(n ast.Node, format string, a ...any) {
+	fatal("GoLite %s.%s at %s: %s", t.f.pkg, t.f.name, fset.Position(n.Pos()), fmt.Sprintf(format, a...))
+}
+
+func (t *glTrans) typeOf(e ast.Expr) glType {
+	switch x := e.(type) {
+	case *ast.Ident:
+		if ty, ok := parseGoType(x.Name); ok {
+			return ty
+		}
+		// named types of the package with an integer underlying type
+		for _, f := range t.p.files {
+			for _, d := range f.Decls {
+				gd, ok := d.(*ast.GenDecl)
+				if !ok || gd.Tok != token.TYPE {
+					continue
+				}
+				for _, s := range gd.Specs {
+					ts := s.(*ast.TypeSpec)
+					if ts.Name.Name == x.Name {
+						return t.typeOf(ts.Type)
+					}
+				}
+			}
+		}
+	}
+	t.fail(e, "unsupported type")
+	return glType{}
+}
+
+func (t *glTrans) declare(name string, ty glType) {
+	if _, ok := t.vars[name]; !ok {
+		t.order = append(t.order, name)
+	}
+	t.vars[name] = ty
+}
+
+func (t *glTrans) translate(l *leanFile) {
+	fd := findFunc(t.p, t.f.recv, t.f.name)
+	if fd == nil || fd.Body == nil {
+		fatal("GoLite: function %s.%s (recv %q) not found", t.f.pkg, t.f.name, t.f.recv)
+	}
+	t.fd = fd
+	t.vars = map[string]glType{}
+	t.cenv = &constEnv{p: t.p, memo: map[string]constant.Value{}}
+	params := []string{}
+	if fd.Recv != nil && len(fd.Recv.List) == 1 && len(fd.Recv.List[0].Names) == 1 {
+		t.recv = fd.Recv.List[0].Names[0].Name
+		names := []string{}
+		for n := range t.f.fields {
+			names = append(names, n)
+		}
+		sort.Strings(names)
+		for _, n := range names {
+			ty, ok := parseGoType(t.f.fields[n])
+			if !ok {
+				fatal("GoLite: bad field type %s", t.f.fields[n])
+			}
+			v := t.recv + "_" + n
+			t.declare(v, ty)
+			params = append(params, fmt.Sprintf("(%s : %s)", v, ty.lean()))
+		}
+	}
+	for _, fl := range fd.Type.Params.List {
+		ty := t.typeOf(fl.Type)
+		for _, n := range fl.Names {
+			t.declare(n.Name, ty)
+			params = append(params, fmt.Sprintf("(%s : %s)", n.Name, ty.lean()))
+		}
+	}
+	if fd.Type.Results == nil {
+		t.fail(fd, "function without results")
+	}
+	rts := []string{}
+	for _, fl := range fd.Type.Results.List {
+		ty := t.typeOf(fl.Type)
+		k := len(fl.Names)
+		if k == 0 {
+			k = 1
+		} else {
+			t.fail(fd, "named results unsupported")
+		}
+		for i := 0; i < k; i++ {
+			t.results = append(t.results, ty)
+			rts = append(rts, ty.lean())
+		}
+	}
+	body := t.stmts(fd.Body.List, nil, "  ")
+	pos := fset.Position(fd.Pos())
+	for _, a := range t.aux {
+		l.pf("%s\n", a)
+	}
+	l.pf("/-- translated from %s:%d `%s` -/\n", strings.TrimPrefix(pos.Filename, repoRoot+"/"), pos.Line, t.f.name)
+	l.pf("def %s %s : %s :=\n%s\n\n", t.f.leanName, strings.Join(params, " "), strings.Join(rts, " × "), body)
+}
+
+// terminates reports whether a statement list always ends in a return.
+func terminates(list []ast.Stmt) bool {
+	if len(list) == 0 {
+		return false
+	}
+	switch s := list[len(list)-1].(type) {
+	case *ast.ReturnStmt:
+		return true
+	case *ast.IfStmt:
+		if s.Else == nil {
+			return false
+		}
+		var el []ast.Stmt
+		switch e := s.Else.(type) {
+		case *ast.BlockStmt:
+			el = e.List
+		case *ast.IfStmt:
+			el = []ast.Stmt{e}
+		}
+		return terminates(s.Body.List) && terminates(el)
+	case *ast.BlockStmt:
+		return terminates(s.List)
+	}
+	return false
+}
+
+func hasReturn(n ast.Node) bool {
+	found := false
+	ast.Inspect(n, func(x ast.Node) bool {
+		switch x.(type) {
+		case *ast.ReturnStmt, *ast.BranchStmt:
+			found = true
+		}
+		return !found
+	})
+	return found
+}
+
+// assigned returns the outer-scope variables assigned inside the statements.
+func (t *glTrans) assigned(list []ast.Stmt) []string {
+	set := map[string]bool{}
+	for _, s := range list {
+		ast.Inspect(s, func(x ast.Node) bool {
+			switch a := x.(type) {
+			case *ast.AssignStmt:
+				if a.Tok != token.DEFINE {
+					for _, lh := range a.Lhs {
+						if id, ok := lh.(*ast.Ident); ok {
+							if _, ok := t.vars[id.Name]; ok {
+								set[id.Name] = true
+							}
+						}
+					}
+				}
+			case *ast.IncDecStmt:
+				if id, ok := a.X.(*ast.Ident); ok {
+					if _, ok := t.vars[id.Name]; ok {
+						set[id.Name] = true
+					}
+				}
+			}
+			return true
+		})
+	}
+	res := []string{}
+	for _, n := range t.order {
+		if set[n] {
+			res = append(res, n)
+		}
+	}
+	return res
+}
+
+func tuple(names []string) string {
+	if len(names) == 1 {
+		return names[0]
+	}
+	return "(" + strings.Join(names, ", ") + ")"
+}
+
+// stmts translates a statement list. `fall` is the list of variables whose
+// values form the result when control falls off the end (nil = must return).
+func (t *glTrans) stmts(list []ast.Stmt, fall []string, ind string) string {
+	if len(list) == 0 {
+		if fall == nil {
+			fatal("GoLite %s: control reaches end of function without return", t.f.name)
+		}
+		return ind + tuple(fall)
+	}
+	s, rest := list[0], list[1:]
+	switch x := s.(type) {
+	case *ast.ReturnStmt:
+		if fall != nil {
+			t.fail(x, "return inside a block that must fall through")
+		}
+		if len(x.Results) != len(t.results) {
+			t.fail(x, "return arity")
+		}
+		parts := []string{}
+		for i, r := range x.Results {
+			parts = append(parts, t.exprAs(r, t.results[i]))
+		}
+		return ind + tuple(parts)
+	case *ast.DeclStmt:
+		gd := x.Decl.(*ast.GenDecl)
+		if gd.Tok != token.VAR {
+			t.fail(x, "unsupported declaration")
+		}
+		out := ""
+		for _, sp := range gd.Specs {
+			vs := sp.(*ast.ValueSpec)
+			if vs.Type == nil {
+				t.fail(x, "var without type")
+			}
+			ty := t.typeOf(vs.Type)
+			for i, n := range vs.Names {
+				val := "0"
+				if ty.kind == "bool" {
+					val = "false"
+				}
+				if i < len(vs.Values) {
+					val = t.exprAs(vs.Values[i], ty)
+				}
+				t.declare(n.Name, ty)
+				out += fmt.Sprintf("%slet %s : %s := %s\n", ind, n.Name, ty.lean(), val)
+			}
+		}
+		return out + t.stmts(rest, fall, ind)
+	case *ast.AssignStmt:
+		return t.assign(x, ind) + t.stmts(rest, fall, ind)
+	case *ast.IncDecStmt:
+		id, ok := x.X.(*ast.Ident)
+		if !ok {
+			t.fail(x, "unsupported inc/dec target")
+		}
+		ty := t.vars[id.Name]
+		op := "+"
+		if x.Tok == token.DEC {
+			op = "-"
+		}
+		return fmt.Sprintf("%slet %s : Int := %s\n", ind, id.Name, wrap(ty, fmt.Sprintf("%s %s 1", id.Name, op))) + t.stmts(rest, fall, ind)
+	case *ast.IfStmt:
+		if x.Init != nil {
+			t.fail(x, "if with init statement")
+		}
+		cond := t.boolExpr(x.Cond)
+		var els []ast.Stmt
+		if x.Else != nil {
+			switch e := x.Else.(type) {
+			case *ast.BlockStmt:
+				els = e.List
+			case *ast.IfStmt:
+				els = []ast.Stmt{e}
+			}
+		}
+		saved := t.snapshot()
+		if terminates(x.Body.List) {
+			// early return: the rest is the else branch
+			a := t.stmts(x.Body.List, nil, ind+"  ")
+			t.restore(saved)
+			b := t.stmts(append(append([]ast.Stmt{}, els...), rest...), fall, ind+"  ")
+			return fmt.Sprintf("%sif %s then\n%s\n%selse\n%s", ind, cond, a, ind, b)
+		}
+		if hasReturn(x.Body) || (x.Else != nil && hasReturn(x.Else)) {
+			t.fail(x, "conditional return in a non-terminating branch")
+		}
+		asg := t.assigned(append(append([]ast.Stmt{}, x.Body.List...), els...))
+		if len(asg) == 0 {
+			return t.stmts(rest, fall, ind)
+		}
+		a := t.stmts(x.Body.List, asg, ind+"    ")
+		t.restore(saved)
+		b := t.stmts(els, asg, ind+"    ")
+		t.restore(saved)
+		return fmt.Sprintf("%slet %s := (\n%s  if %s then\n%s\n%s  else\n%s)\n", ind, tuple(asg), ind, cond, a, ind, b) + t.stmts(rest, fall, ind)
+	case *ast.ForStmt:
+		if x.Init != nil || x.Post != nil {
+			// for i := a; cond; post { body }  ==>  init; for cond { body; post }
+			pre := []ast.Stmt{}
+			if x.Init != nil {
+				pre = append(pre, x.Init)
+			}
+			body := append([]ast.Stmt{}, x.Body.List...)
+			if x.Post != nil {
+				body = append(body, x.Post)
+			}
+			loop := &ast.ForStmt{For: x.For, Cond: x.Cond, Body: &ast.BlockStmt{List: body}}
+			return t.stmts(append(append(pre, loop), rest...), fall, ind)
+		}
+		if x.Cond == nil {
+			t.fail(x, "infinite loop")
+		}
+		if hasReturn(x.Body) {
+			t.fail(x, "return/break/continue inside loop")
+		}
+		if t.f.fuel == "" {
+			t.fail(x, "loop needs a fuel expression in the registry")
+		}
+		asg := t.assigned(x.Body.List)
+		if len(asg) == 0 {
+			t.fail(x, "loop assigns nothing")
+		}
+		t.nloop++
+		name := fmt.Sprintf("%s_loop%d", t.f.leanName, t.nloop)
+		all := append([]string{}, t.order...)
+		argTypes := []string{}
+		for _, v := range all {
+			argTypes = append(argTypes, t.vars[v].lean())
+		}
+		resTypes := []string{}
+		for _, v := range asg {
+			resTypes = append(resTypes, t.vars[v].lean())
+		}
+		saved := t.snapshot()
+		cond := t.boolExpr(x.Cond)
+		body := t.stmts(x.Body.List, asg, "      ")
+		t.restore(saved)
+		// recursive call with the updated variables
+		aux := fmt.Sprintf("def %s : Nat → %s → %s\n", name, strings.Join(argTypes, " → "), strings.Join(resTypes, " × "))
+		aux += fmt.Sprintf("  | 0, %s => %s\n", strings.Join(all, ", "), tuple(asg))
+		aux += fmt.Sprintf("  | fuel + 1, %s =>\n    if %s then\n      let %s := (\n%s)\n      %s fuel %s\n    else %s\n",
+			strings.Join(all, ", "), cond, tuple(asg), body, name, strings.Join(all, " "), tuple(asg))
+		t.aux = append(t.aux, aux)
+		return fmt.Sprintf("%slet %s := %s (%s) %s\n", ind, tuple(asg), name, t.f.fuel, strings.Join(all, " ")) + t.stmts(rest, fall, ind)
+	case *ast.BlockStmt:
+		return t.stmts(append(append([]ast.Stmt{}, x.List...), rest...), fall, ind)
+	}
+	t.fail(s, "unsupported statement %T", s)
+	return ""
+}
+
+type glSnap struct {
+	vars  map[string]glType
+	order []string
+}
+
+func (t *glTrans) snapshot() glSnap {
+	m := map[string]glType{}
+	for k, v := range t.vars {
+		m[k] = v
+	}
+	return glSnap{m, append([]string{}, t.order...)}
+}
+func (t *glTrans) restore(s glSnap) { t.vars = s.vars; t.order = s.order }
+
+func (t *glTrans) assign(x *ast.AssignStmt, ind string) string {
+	// intrinsics with two results
+	if len(x.Lhs) == 2 && len(x.Rhs) == 1 {
+		call, ok := x.Rhs[0].(*ast.CallExpr)
+		if !ok {
+			t.fail(x, "unsupported multi-assignment")
+		}
+		sel, ok := call.Fun.(*ast.SelectorExpr)
+		if !ok {
+			t.fail(x, "unsupported multi-assignment")
+		}
+		pk, _ := sel.X.(*ast.Ident)
+		if pk == nil || pk.Name != "bits" {
+			t.fail(x, "unsupported call")
+		}
+		a, b := x.Lhs[0].(*ast.Ident).Name, x.Lhs[1].(*ast.Ident).Name
+		u64 := glType{"u", 64}
+		var out string
+		switch sel.Sel.Name {
+		case "Mul64":
+			p := fmt.Sprintf("(%s * %s)", t.exprAs(call.Args[0], u64), t.exprAs(call.Args[1], u64))
+			out = fmt.Sprintf("%slet %s : Int := %s / 2 ^ 64\n%slet %s : Int := %s %% 2 ^ 64\n", ind, a, p, ind, b, p)
+		case "Add64":
+			p := fmt.Sprintf("(%s + %s + %s)", t.exprAs(call.Args[0], u64), t.exprAs(call.Args[1], u64), t.exprAs(call.Args[2], u64))
+			out = fmt.Sprintf("%slet %s : Int := %s %% 2 ^ 64\n%slet %s : Int := %s / 2 ^ 64\n", ind, a, p, ind, b, p)
+		default:
+			t.fail(x, "unsupported bits intrinsic %s", sel.Sel.Name)
+		}
+		if a != "_" {
+			t.declare(a, u64)
+		}
+		if b != "_" {
+			t.declare(b, u64)
+		}
+		return out
+	}
+	if len(x.Lhs) != len(x.Rhs) {
+		t.fail(x, "unsupported assignment shape")
+	}
+	out := ""
+	for i := range x.Lhs {
+		id, ok := x.Lhs[i].(*ast.Ident)
+		if !ok {
+			t.fail(x, "unsupported assignment target")
+		}
+		switch x.Tok {
+		case token.DEFINE:
+			ty, val := t.exprInfer(x.Rhs[i])
+			t.declare(id.Name, ty)
+			out += fmt.Sprintf("%slet %s : %s := %s\n", ind, id.Name, ty.lean(), val)
+		case token.ASSIGN:
+			ty, ok := t.vars[id.Name]
+			if !ok {
+				t.fail(x, "assignment to unknown variable %s", id.Name)
+			}
+			out += fmt.Sprintf("%slet %s : %s := %s\n", ind, id.Name, ty.lean(), t.exprAs(x.Rhs[i], ty))
+		default:
+			ops := map[token.Token]token.Token{token.ADD_ASSIGN: token.ADD, token.SUB_ASSIGN: token.SUB, token.MUL_ASSIGN: token.MUL,
+				token.QUO_ASSIGN: token.QUO, token.REM_ASSIGN: token.REM, token.SHL_ASSIGN: token.SHL, token.SHR_ASSIGN: token.SHR,
+				token.AND_ASSIGN: token.AND, token.OR_ASSIGN: token.OR, token.XOR_ASSIGN: token.XOR}
+			op, ok := ops[x.Tok]
+			if !ok {
+				t.fail(x, "unsupported assignment operator")
+			}
+			ty := t.vars[id.Name]
+			be := &ast.BinaryExpr{X: id, Op: op, Y: x.Rhs[i], OpPos: x.Pos()}
+			out += fmt.Sprintf("%slet %s : %s := %s\n", ind, id.Name, ty.lean(), t.exprAs(be, ty))
+		}
+	}
+	return out
+}
+
+func wrap(ty glType, e string) string {
+	switch ty.kind {
+	case "u":
+		return fmt.Sprintf("wrapU %d (%s)", ty.width, e)
+	case "s":
+		return fmt.Sprintf("wrapS %d (%s)", ty.width, e)
+	}
+	return e
+}
+
+// isUntypedConst: literal or package constant without explicit type.
+func (t *glTrans) constVal(e ast.Expr) (string, bool) {
+	switch x := e.(type) {
+	case *ast.BasicLit:
+		if x.Kind == token.INT || x.Kind == token.CHAR {
+			v := constant.MakeFromLiteral(x.Value, x.Kind, 0)
+			return v.ExactString(), true
+		}
+	case *ast.ParenExpr:
+		return t.constVal(x.X)
+	case *ast.Ident:
+		if _, ok := t.vars[x.Name]; ok {
+			return "", false
+		}
+		if x.Name == "true" || x.Name == "false" || x.Name == "nil" {
+			return "", false
+		}
+		v := t.cenv.lookup(x.Name)
+		if v.Kind() == constant.Int {
+			return v.ExactString(), true
+		}
+	case *ast.BinaryExpr:
+		a, ok1 := t.constVal(x.X)
+		b, ok2 := t.constVal(x.Y)
+		if ok1 && ok2 {
+			va, vb := constant.MakeFromLiteral(a, token.INT, 0), constant.MakeFromLiteral(b, token.INT, 0)
+			switch x.Op {
+			case token.SHL, token.SHR:
+				s, _ := constant.Uint64Val(vb)
+				return constant.Shift(va, x.Op, uint(s)).ExactString(), true
+			case token.QUO:
+				return constant.BinaryOp(va, token.QUO_ASSIGN, vb).ExactString(), true
+			case token.ADD, token.SUB, token.MUL, token.REM, token.AND, token.OR, token.XOR:
+				return constant.BinaryOp(va, x.Op, vb).ExactString(), true
+			}
+		}
+	case *ast.SelectorExpr:
+		if id, ok := x.X.(*ast.Ident); ok && id.Name == "math" {
+			switch x.Sel.Name {
+			case "MaxUint64":
+				return "18446744073709551615", true
+			case "MaxInt64":
+				return "9223372036854775807", true
+			case "MinInt64":
+				return "-9223372036854775808", true
+			case "MaxUint32":
+				return "4294967295", true
+			case "MaxUint16":
+				return "65535", true
+			case "MaxInt":
+				return "9223372036854775807", true
+			}
+		}
+	}
+	return "", false
+}
+
+func lit(s string) string {
+	if strings.HasPrefix(s, "-") {
+		return "(" + s + ")"
+	}
+	return s
+}
+
+// exprInfer translates an expression and infers its Go type (untyped
+// constants default to int).
+func (t *glTrans) exprInfer(e ast.Expr) (glType, string) {
+	if c, ok := t.constVal(e); ok {
+		return glType{"s", 64}, lit(c)
+	}
+	switch x := e.(type) {
+	case *ast.ParenExpr:
+		ty, s := t.exprInfer(x.X)
+		return ty, "(" + s + ")"
+	case *ast.Ident:
+		if x.Name == "true" || x.Name == "false" {
+			return glType{"bool", 0}, x.Name
+		}
+		if ty, ok := t.vars[x.Name]; ok {
+			return ty, x.Name
+		}
+		t.fail(e, "unknown identifier %s", x.Name)
+	case *ast.SelectorExpr:
+		if id, ok := x.X.(*ast.Ident); ok && id.Name == t.recv && t.recv != "" {
+			v := t.recv + "_" + x.Sel.Name
+			if ty, ok := t.vars[v]; ok {
+				return ty, v
+			}
+			t.fail(e, "receiver field %s not in registry", x.Sel.Name)
+		}
+		t.fail(e, "unsupported selector")
+	case *ast.CallExpr:
+		// conversion T(x)
+		if id, ok := x.Fun.(*ast.Ident); ok && len(x.Args) == 1 {
+			if _, isVar := t.vars[id.Name]; !isVar {
+				ty := t.typeOf(id)
+				if c, ok := t.constVal(x.Args[0]); ok {
+					return ty, wrap(ty, lit(c))
+				}
+				_, s := t.exprInfer(x.Args[0])
+				return ty, wrap(ty, s)
+			}
+		}
+		t.fail(e, "unsupported call")
+	case *ast.UnaryExpr:
+		switch x.Op {
+		case token.NOT:
+			return glType{"bool", 0}, "(!" + t.boolExpr(x.X) + ")"
+		case token.SUB:
+			ty, s := t.exprInfer(x.X)
+			return ty, wrap(ty, "- "+s)
+		}
+		t.fail(e, "unsupported unary operator")
+	case *ast.BinaryExpr:
+		switch x.Op {
+		case token.LAND, token.LOR, token.EQL, token.NEQ, token.LSS, token.LEQ, token.GTR, token.GEQ:
+			return glType{"bool", 0}, t.boolExpr(e)
+		}
+		// shifts: result type is the left operand's
+		if x.Op == token.SHL || x.Op == token.SHR {
+			ty, a := t.exprInfer(x.X)
+			_, b := t.exprInfer(x.Y)
+			if x.Op == token.SHL {
+				return ty, wrap(ty, fmt.Sprintf("%s * 2 ^ (%s).toNat", a, b))
+			}
+			if ty.kind == "s" {
+				return ty, fmt.Sprintf("(%s / 2 ^ (%s).toNat)", a, b) // Int./ floors, as Go's arithmetic shift does
+			}
+			return ty, fmt.Sprintf("(%s / 2 ^ (%s).toNat)", a, b)
+		}
+		var ty glType
+		var a, b string
+		ca, okA := t.constVal(x.X)
+		cb, okB := t.constVal(x.Y)
+		switch {
+		case okA && !okB:
+			ty, b = t.exprInfer(x.Y)
+			a = lit(ca)
+		case okB && !okA:
+			ty, a = t.exprInfer(x.X)
+			b = lit(cb)
+		default:
+			var tb glType
+			ty, a = t.exprInfer(x.X)
+			tb, b = t.exprInfer(x.Y)
+			if ty != tb {
+				t.fail(e, "operand types differ")
+			}
+		}
+		if ty.kind != "u" && ty.kind != "s" {
+			t.fail(e, "arithmetic on non-integer")
+		}
+		switch x.Op {
+		case token.ADD:
+			return ty, wrap(ty, fmt.Sprintf("%s + %s", a, b))
+		case token.SUB:
+			return ty, wrap(ty, fmt.Sprintf("%s - %s", a, b))
+		case token.MUL:
+			return ty, wrap(ty, fmt.Sprintf("%s * %s", a, b))
+		case token.QUO:
+			if ty.kind == "u" {
+				return ty, fmt.Sprintf("(%s / %s)", a, b)
+			}
+			return ty, wrap(ty, fmt.Sprintf("Int.tdiv %s %s", paren(a), paren(b)))
+		case token.REM:
+			if ty.kind == "u" {
+				return ty, fmt.Sprintf("(%s %% %s)", a, b)
+			}
+			return ty, fmt.Sprintf("(Int.tmod %s %s)", paren(a), paren(b))
+		case token.AND:
+			if ty.kind == "u" {
+				return ty, fmt.Sprintf("((%s).toNat &&& (%s).toNat : Nat)", a, b)
+			}
+		case token.OR:
+			if ty.kind == "u" {
+				return ty, fmt.Sprintf("((%s).toNat ||| (%s).toNat : Nat)", a, b)
+			}
+		case token.XOR:
+			if ty.kind == "u" {
+				return ty, fmt.Sprintf("((%s).toNat ^^^ (%s).toNat : Nat)", a, b)
+			}
+		}
+		t.fail(e, "unsupported binary operator %s", x.Op)
+	}
+	t.fail(e, "unsupported expression %T", e)
+	return glType{}, ""
+}
+
+func paren(s string) string {
+	if strings.ContainsAny(s, " ") && !strings.HasPrefix(s, "(") {
+		return "(" + s + ")"
+	}
+	return s
+}
+
+// exprAs translates an expression in a context that expects type ty.
+func (t *glTrans) exprAs(e ast.Expr, ty glType) string {
+	if ty.kind == "err" {
+		if id, ok := e.(*ast.Ident); ok && id.Name == "nil" {
+			return "false"
+		}
+		switch e.(type) {
+		case *ast.CallExpr, *ast.CompositeLit, *ast.UnaryExpr:
+			return "true" // fmt.Errorf(...), errors.New(...), SomeError{...}
+		}
+		t.fail(e, "unsupported error value")
+	}
+	if ty.kind == "bool" {
+		return t.boolExpr(e)
+	}
+	if c, ok := t.constVal(e); ok {
+		return lit(c)
+	}
+	got, s := t.exprInfer(e)
+	if got != ty {
+		t.fail(e, "expression of type %v where %v expected", got, ty)
+	}
+	return s
+}
+
+func (t *glTrans) boolExpr(e ast.Expr) string {
+	switch x := e.(type) {
+	case *ast.ParenExpr:
+		return "(" + t.boolExpr(x.X) + ")"
+	case *ast.Ident:
+		if x.Name == "true" || x.Name == "false" {
+			return x.Name
+		}
+		if ty, ok := t.vars[x.Name]; ok && ty.kind == "bool" {
+			return x.Name
+		}
+		t.fail(e, "non-boolean identifier in condition")
+	case *ast.UnaryExpr:
+		if x.Op == token.NOT {
+			return "(!" + t.boolExpr(x.X) + ")"
+		}
+	case *ast.BinaryExpr:
+		switch x.Op {
+		case token.LAND:
+			return "(" + t.boolExpr(x.X) + " && " + t.boolExpr(x.Y) + ")"
+		case token.LOR:
+			return "(" + t.boolExpr(x.X) + " || " + t.boolExpr(x.Y) + ")"
+		case token.EQL, token.NEQ, token.LSS, token.LEQ, token.GTR, token.GEQ:
+			var a, b string
+			ca, okA := t.constVal(x.X)
+			cb, okB := t.constVal(x.Y)
+			var ta, tb glType
+			switch {
+			case okA && okB:
+				a, b = lit(ca), lit(cb)
+			case okA:
+				tb, b = t.exprInfer(x.Y)
+				a = lit(ca)
+				ta = tb
+			case okB:
+				ta, a = t.exprInfer(x.X)
+				b = lit(cb)
+				tb = ta
+			default:
+				ta, a = t.exprInfer(x.X)
+				tb, b = t.exprInfer(x.Y)
+			}
+			if ta != tb {
+				t.fail(e, "comparison of different types")
+			}
+			if ta.kind == "bool" {
+				if x.Op == token.EQL {
+					return fmt.Sprintf("(%s == %s)", a, b)
+				}
+				if x.Op == token.NEQ {
+					return fmt.Sprintf("(%s != %s)", a, b)
+				}
+				t.fail(e, "ordering on booleans")
+			}
+			op := map[token.Token]string{token.EQL: "=", token.NEQ: "≠", token.LSS: "<", token.LEQ: "≤", token.GTR: ">", token.GEQ: "≥"}[x.Op]
+			return fmt.Sprintf("decide (%s %s %s)", a, op, b)
+		}
+	}
+	t.fail(e, "unsupported boolean expression")
+	return ""
 }
